@@ -351,5 +351,5 @@ class Check:
                 json.dump(body, f, indent=1, default=str)
             tail = "" if found else " no-failing-input-found"
             print(f"VIOLATION property={self.prop} replay={path}{tail}")
-            print(f"  {kind}: {what[:400]}")
+            print("  " + kind + ": " + " | ".join(x.strip() for x in what[:500].split("\n") if x.strip()))
         return 1
